@@ -129,6 +129,9 @@ func runC14(c *Ctx) {
 			}
 			extra = guardText(g)
 		}
+		if sk, _ := iterationCanSkip(goIn, nil); sk && extra == "" {
+			extra = "a condition that moves on to the next iteration without starting a helper"
+		}
 		c.check(extra == "", "spawn-unconditional", instrPos(goIn), "every iteration of the spawning loop starts a helper",
 			"inside the spawning loop the helper is started only under "+extra+": fewer helpers run than the collecting loop waits for, so the last real result is not recognised as the last and the call ends with the context's error instead of that result")
 	}
@@ -391,6 +394,90 @@ func runC14(c *Ctx) {
 	}
 
 	// ---------------------------------------------------------------- R7
+	c.rule("R10", "the collecting loop ends only by accepting a result or because the caller's context ended; the per-upstream wrapper sends the query once, under its caller's context; each helper has its own upstream variable", 4)
+	{
+		body := succOnTruth(collect.iff, true)
+		for _, r := range returnsOf(f) {
+			if !body.Dominates(r.Block()) {
+				continue
+			}
+			rv := returnedValues(r)
+			key := "collect-return:other"
+			switch {
+			case len(rv) == 2 && isNilConst(rv[1]) && !isNilConst(rv[0]):
+				c.ok("collect-return:accept", instrPos(r), "the accepting return")
+			case len(rv) == 2 && isNilConst(rv[0]):
+				cl, ok := rv[1].(*ssa.Call)
+				if ok && callName(cl) == "context.Cause" {
+					key = "collect-return:context"
+				}
+				c.check(ok && callName(cl) == "context.Cause", key, instrPos(r), "ends with the context's error", "the collecting loop returns "+exprStr(rv[1])+" before all helpers reported: one failing upstream masks the good answer of another queried upstream")
+			default:
+				c.fail(key, instrPos(r), "unexpected return inside the collecting loop")
+			}
+		}
+		// the wrapper
+		if wf := c.fn(relForward, "upstreamWrapper", "ExchangeContext"); wf != nil {
+			var calls []*ssa.Call
+			eachInstr(wf, func(in ssa.Instruction) {
+				if ci, ok := in.(*ssa.Call); ok && ci.Call.IsInvoke() && ci.Call.Method.Name() == "ExchangeContext" {
+					calls = append(calls, ci)
+				}
+			})
+			good := len(calls) == 1
+			why := fmt.Sprintf("%d ExchangeContext calls", len(calls))
+			if good {
+				ci := calls[0]
+				if _, cyc := reachAvoiding(ci, func(x ssa.Instruction) bool { return x == ssa.Instruction(ci) }, nil); cyc {
+					good, why = false, "the exchange is repeated in a loop"
+				}
+				if !isParamValue(p, ci.Call.Args[0], wf.Params[1]) {
+					good, why = false, "the exchange runs under "+exprStr(ci.Call.Args[0])+", not the context it was given"
+				}
+				if ci.Call.Args[1] != ssa.Value(wf.Params[2]) {
+					good, why = false, "the exchange sends "+exprStr(ci.Call.Args[1])+", not the bytes it was given"
+				}
+			}
+			c.check(good, "wrapper-sends-once", wf.Pos(), "the wrapper forwards the query once, under the helper's context, unchanged", "the per-upstream wrapper does not forward exactly one exchange under its caller's context ("+why+"): the helper outlives the fixed 5 s bound or the query is sent twice")
+		}
+		// the helper reports what the upstream gave: it does not judge the rcode (that is the collector's job: the
+		// last reply counts whatever its rcode)
+		rc := false
+		eachInstr(helper, func(in ssa.Instruction) {
+			if fa, ok := in.(*ssa.FieldAddr); ok {
+				if k, _ := fieldKey(fa); strings.HasSuffix(k, "dns.MsgHdr.Rcode") {
+					rc = true
+				}
+			}
+		})
+		c.check(!rc, "helper-does-not-judge-rcode", helper.Pos(), "the helper passes replies on whatever their rcode", "the helper goroutine inspects the reply's rcode (e.g. turns SERVFAIL into an error): the last reply is no longer returned whatever its rcode")
+		// per-helper variables
+		var mc *ssa.MakeClosure
+		if m, ok := goIn.Call.Value.(*ssa.MakeClosure); ok {
+			mc = m
+		}
+		if mc != nil {
+			spawnBody := succOnTruth(spawn.iff, true)
+			shared := ""
+			for i, b := range mc.Bindings {
+				al, ok := b.(*ssa.Alloc)
+				if !ok {
+					continue
+				}
+				storedInLoop := false
+				for _, r := range referrers(al) {
+					if st, ok := r.(*ssa.Store); ok && st.Addr == ssa.Value(al) && spawnBody.Dominates(st.Block()) {
+						storedInLoop = true
+					}
+				}
+				if storedInLoop && !spawnBody.Dominates(al.Block()) {
+					shared = helper.FreeVars[i].Name()
+				}
+			}
+			c.check(shared == "", "helper-variables-per-iteration", instrPos(goIn), "variables assigned in the spawning loop and used by the helper are per-iteration", "the variable "+shared+" is declared outside the spawning loop, assigned in it and captured by the helpers: all helpers see its last value and query the same upstream")
+		}
+	}
+
 	c.rule("R9", "the query is packed into a pool buffer of its own (what the helpers copy and the deferred release returns is that buffer)", 1)
 	checkPackBufferExact(c)
 
